@@ -8,7 +8,7 @@ from ..wire import Sym, enc, request as wire_request, lean_representable, N
 
 ID = "C19"
 LEAN_MODULE = "BibVerif.Props.C19"
-RULE = ("corpus; call histories on real Entry objects: every sequence of <= k mutating calls (set_field, e[k]=v, pop with "
+RULE = ("corpus (incl. entries as the parser hands them out: @misc{key}, @book{key,}); call histories on real Entry objects: every sequence of <= k mutating calls (set_field, e[k]=v, pop with "
         "and without default, del e[k]) over the keys a / A / b from 4 start entries (empty, two fields, keys differing only "
         "in case, a duplicated key), and every sequence of k-1 mutators followed by one observer (get, in, e[k] incl. "
         "ENTRYTYPE/ID) - k=4 quick, 5 thorough; random histories of up to 30 calls from entries parsed out of BibTeX text, "
